@@ -261,112 +261,7 @@ func c08(c *core.Check) {
 	c.Level = "proof"
 	c.Explain = "Injectivity of the label-tuple key, decided from /repo's current source.  The body of buildLabelValueKey is extracted as a per-element encoder (constants, the element under a chain of strings.ReplaceAll, strconv.Quote, a decimal length prefix).  When every term is a constant or the element under single-byte replacements followed by a constant terminator, the encoder is a monoid morphism h on the byte alphabet extended with an element-terminator symbol, and tuple encoding is injective for all arities iff the code {h(c)} is uniquely decodable — decided exactly by the Sardinas–Patterson algorithm over the finite set of bytes occurring in code words plus one representative ordinary byte (all other bytes are their own code word and occur in no other).  A failing test is turned into two distinct same-arity tuples with equal keys by a bounded search on the extracted encoder; that pair is the violation.  Encoders outside the morphism family are searched the same way (violation if a collision exists) and are otherwise undecided.  (R2) every access to labelValuesMap uses a key built by buildLabelValueKey from the tuple that is stored or looked up, and only metric.go touches the map and the slice; (R3) every tuple-taking method compares the tuple's length with the key count before anything else."
 	c.Assume = append(c.Assume, "strings.ReplaceAll with single-byte old strings is a byte-wise morphism (holds for invalid UTF-8 too)", "Go map lookup by string key is exact")
-	f := c.MustFn("C08-R1", buildKey)
-	if f == nil {
-		return
-	}
-	c.Rule("C08-R1", "INJECTIVE: the extracted encoder is a uniquely decodable code (Sardinas–Patterson), hence distinct tuples get distinct keys for every arity; otherwise a colliding pair of same-arity tuples is exhibited")
-	terms, why := extractEncoder(f)
-	if why != "" {
-		// not a uniform per-element term: search for a collision with the interpreter over the function body
-		if msg, status := collisionSearch(f, nil); status == "collision" {
-			c.Fail("C08-R1", buildKey+"|uniquely decodable", pos(c, f.Decl), "the key encoder is not injective: label tuples "+msg+" — they address the same datum; creating, finding, expiring or deleting one touches the other")
-		} else {
-			c.Undecided("C08-R1", buildKey+"|shape", pos(c, f.Decl), "encoder not in a recognised family ("+why+") and the bounded search found no collision ("+status+")")
-		}
-	} else {
-		var desc []string
-		morph := true
-		var elemSteps [][2]string
-		sep := ""
-		nelem := 0
-		for i, t := range terms {
-			switch t.kind {
-			case "lit":
-				desc = append(desc, strconv.Quote(t.lit))
-				if i == len(terms)-1 {
-					sep = t.lit
-				} else {
-					morph = false
-				}
-			case "elem":
-				nelem++
-				elemSteps = t.steps
-				d := "elem"
-				for _, s := range t.steps {
-					d += fmt.Sprintf(".replace(%q→%q)", s[0], s[1])
-					if len(s[0]) != 1 {
-						morph = false
-					}
-				}
-				desc = append(desc, d)
-				if i != 0 {
-					morph = false
-				}
-			default:
-				desc = append(desc, t.kind)
-				morph = false
-			}
-		}
-		if nelem != 1 || sep == "" {
-			morph = false
-		}
-		c.Extra["encoder"] = strings.Join(desc, " + ")
-		c.Ok("C08-R1", buildKey+"|extracted", pos(c, f.Decl), "per element: "+strings.Join(desc, " + "))
-		proved := false
-		if morph {
-			// alphabet: bytes occurring in any step or the separator, plus a representative
-			alpha := map[byte]bool{'a': true}
-			for _, s := range elemSteps {
-				for i := 0; i < len(s[0]); i++ {
-					alpha[s[0][i]] = true
-				}
-				for i := 0; i < len(s[1]); i++ {
-					alpha[s[1][i]] = true
-				}
-			}
-			for i := 0; i < len(sep); i++ {
-				alpha[sep[i]] = true
-			}
-			var code []string
-			var table []string
-			var bs []int
-			for b := range alpha {
-				bs = append(bs, int(b))
-			}
-			sort.Ints(bs)
-			for _, b := range bs {
-				w := applySteps(string([]byte{byte(b)}), elemSteps)
-				code = append(code, w)
-				table = append(table, fmt.Sprintf("h(%q)=%q", string([]byte{byte(b)}), w))
-			}
-			code = append(code, sep)
-			table = append(table, fmt.Sprintf("h(#)=%q", sep))
-			c.Extra["code_words"] = table
-			ud, dangling := sardinasPatterson(code)
-			proved = ud
-			if ud {
-				c.Ok("C08-R1", buildKey+"|uniquely decodable", pos(c, f.Decl), "Sardinas–Patterson: no dangling suffix is a code word; code = "+strings.Join(table, ", "))
-			} else {
-				c.Extra["dangling_suffix"] = dangling
-			}
-		}
-		if !proved {
-			var seeds []string
-			for _, t := range terms {
-				for _, st := range t.steps {
-					seeds = append(seeds, st[0], st[1])
-				}
-				seeds = append(seeds, t.lit)
-			}
-			if msg, status := collisionSearch(f, seeds); status == "collision" {
-				c.Fail("C08-R1", buildKey+"|uniquely decodable", pos(c, f.Decl), "the key encoder is not injective: label tuples "+msg+" — they address the same datum; creating, finding, expiring or deleting one touches the other")
-			} else {
-				c.Undecided("C08-R1", buildKey+"|uniquely decodable", pos(c, f.Decl), "unique decodability not established and no collision found in the bounded search ("+status+")")
-			}
-		}
-	}
-	c.Floor("C08-R1", 2)
+	keyInjective(c, "C08-R1")
 
 	c.Rule("C08-R2", "ONE-KEYING: every index, store or delete on labelValuesMap uses a key that is the direct result of buildLabelValueKey applied to the tuple being stored/looked up; labelValuesMap and LabelValues are not written outside metric.go; a stored LabelValue's Labels is the tuple the key was built from")
 	n2 := 0
@@ -868,4 +763,115 @@ func collisionSearch(f *core.Func, seeds []string) (string, string) {
 		}
 	}
 	return "", fmt.Sprintf("no collision among tuples of arity 1-2 over %d strings", len(strs))
+}
+
+// keyInjective decides, under the given rule id, that buildLabelValueKey is an
+// injective encoding of label tuples (shared by C08 and C09).
+func keyInjective(c *core.Check, rule string) {
+	f := c.MustFn(rule, buildKey)
+	if f == nil {
+		return
+	}
+	c.Rule(rule, "INJECTIVE: the extracted encoder is a uniquely decodable code (Sardinas–Patterson), hence distinct tuples get distinct keys for every arity; otherwise a colliding pair of same-arity tuples is exhibited")
+	terms, why := extractEncoder(f)
+	if why != "" {
+		// not a uniform per-element term: search for a collision with the interpreter over the function body
+		if msg, status := collisionSearch(f, nil); status == "collision" {
+			c.Fail(rule, buildKey+"|uniquely decodable", pos(c, f.Decl), "the key encoder is not injective: label tuples "+msg+" — they address the same datum; creating, finding, expiring or deleting one touches the other")
+		} else {
+			c.Undecided(rule, buildKey+"|shape", pos(c, f.Decl), "encoder not in a recognised family ("+why+") and the bounded search found no collision ("+status+")")
+		}
+	} else {
+		var desc []string
+		morph := true
+		var elemSteps [][2]string
+		sep := ""
+		nelem := 0
+		for i, t := range terms {
+			switch t.kind {
+			case "lit":
+				desc = append(desc, strconv.Quote(t.lit))
+				if i == len(terms)-1 {
+					sep = t.lit
+				} else {
+					morph = false
+				}
+			case "elem":
+				nelem++
+				elemSteps = t.steps
+				d := "elem"
+				for _, s := range t.steps {
+					d += fmt.Sprintf(".replace(%q→%q)", s[0], s[1])
+					if len(s[0]) != 1 {
+						morph = false
+					}
+				}
+				desc = append(desc, d)
+				if i != 0 {
+					morph = false
+				}
+			default:
+				desc = append(desc, t.kind)
+				morph = false
+			}
+		}
+		if nelem != 1 || sep == "" {
+			morph = false
+		}
+		c.Extra["encoder"] = strings.Join(desc, " + ")
+		c.Ok(rule, buildKey+"|extracted", pos(c, f.Decl), "per element: "+strings.Join(desc, " + "))
+		proved := false
+		if morph {
+			// alphabet: bytes occurring in any step or the separator, plus a representative
+			alpha := map[byte]bool{'a': true}
+			for _, s := range elemSteps {
+				for i := 0; i < len(s[0]); i++ {
+					alpha[s[0][i]] = true
+				}
+				for i := 0; i < len(s[1]); i++ {
+					alpha[s[1][i]] = true
+				}
+			}
+			for i := 0; i < len(sep); i++ {
+				alpha[sep[i]] = true
+			}
+			var code []string
+			var table []string
+			var bs []int
+			for b := range alpha {
+				bs = append(bs, int(b))
+			}
+			sort.Ints(bs)
+			for _, b := range bs {
+				w := applySteps(string([]byte{byte(b)}), elemSteps)
+				code = append(code, w)
+				table = append(table, fmt.Sprintf("h(%q)=%q", string([]byte{byte(b)}), w))
+			}
+			code = append(code, sep)
+			table = append(table, fmt.Sprintf("h(#)=%q", sep))
+			c.Extra["code_words"] = table
+			ud, dangling := sardinasPatterson(code)
+			proved = ud
+			if ud {
+				c.Ok(rule, buildKey+"|uniquely decodable", pos(c, f.Decl), "Sardinas–Patterson: no dangling suffix is a code word; code = "+strings.Join(table, ", "))
+			} else {
+				c.Extra["dangling_suffix"] = dangling
+			}
+		}
+		if !proved {
+			var seeds []string
+			for _, t := range terms {
+				for _, st := range t.steps {
+					seeds = append(seeds, st[0], st[1])
+				}
+				seeds = append(seeds, t.lit)
+			}
+			if msg, status := collisionSearch(f, seeds); status == "collision" {
+				c.Fail(rule, buildKey+"|uniquely decodable", pos(c, f.Decl), "the key encoder is not injective: label tuples "+msg+" — they address the same datum; creating, finding, expiring or deleting one touches the other")
+			} else {
+				c.Undecided(rule, buildKey+"|uniquely decodable", pos(c, f.Decl), "unique decodability not established and no collision found in the bounded search ("+status+")")
+			}
+		}
+	}
+	c.Floor(rule, 2)
 }
